@@ -14,6 +14,7 @@ import (
 	"strconv"
 	"strings"
 	"sync"
+	"sync/atomic"
 	"time"
 )
 
@@ -33,11 +34,12 @@ type Finding struct {
 }
 
 type Ctx struct {
-	Prop  string
-	Tier  string
-	Seed  int64
-	Level string
-	Start time.Time
+	progress int64 // unix nanos of the last counter / report activity (stall watchdog)
+	Prop     string
+	Tier     string
+	Seed     int64
+	Level    string
+	Start    time.Time
 	// Deadline after which explorations stop expanding (exit 0, exhaustive=false).
 	Deadline time.Time
 
@@ -141,7 +143,37 @@ func (c *Ctx) Sample(s interface{}) {
 	}
 }
 
+// StartStallWatchdog (main process only): when no counter, report or evidence field has moved
+// for the stall limit, the code under test is not terminating (an endless loop or a wait
+// that is never satisfied, executed on the check's own goroutine). That is reported as a
+// violation - the node would be wedged in the same way - and the process exits with what it
+// has. Worker subprocesses are watched by their parent instead.
+func (c *Ctx) StartStallWatchdog() {
+	limit := 15 * time.Minute
+	if v := os.Getenv("VERIF_STALL_S"); v != "" {
+		if n, err := strconv.Atoi(v); err == nil && n > 0 {
+			limit = time.Duration(n) * time.Second
+		}
+	}
+	atomic.StoreInt64(&c.progress, time.Now().UnixNano())
+	go func() {
+		for {
+			time.Sleep(5 * time.Second)
+			last := time.Unix(0, atomic.LoadInt64(&c.progress))
+			if time.Since(last) < limit {
+				continue
+			}
+			c.Report(c.Prop+"|code-under-test-does-not-terminate", fmt.Sprintf("the check made no progress for %s: the code under test, executed synchronously by the check, neither returns nor fails (a node would be wedged the same way)", limit), map[string]interface{}{"engine": "stall-watchdog"})
+			c.Cap("stalled: exploration abandoned")
+			os.Exit(c.Finish())
+		}
+	}()
+}
+
+func (c *Ctx) touch() { atomic.StoreInt64(&c.progress, time.Now().UnixNano()) }
+
 func (c *Ctx) Add(key string, n int) {
+	c.touch()
 	if c.ForwardAdd != nil {
 		c.ForwardAdd(key, n)
 		return
@@ -181,6 +213,7 @@ func (c *Ctx) HarnessError(msg string) {
 // `vcheck replay` can re-execute without the explorer.
 // Returns true if the violation is new (not a known finding, first of its signature).
 func (c *Ctx) Report(sig, what string, replay interface{}) bool {
+	c.touch()
 	if c.Forward != nil {
 		c.Forward(sig, what, replay)
 		return false
